@@ -20,6 +20,10 @@ CHECKS = {
   text="Theorems in coq/Props/C15.v over Model/NodeOps.v: both inverse laws (seq<->map, index<->map) for item lists of every length, stated up to the position of the key attribute and marks, under exactly the property's side conditions; short form only when the value attribute is the sole remaining key; unchanged-node lemmas for missing / wrong-kind attributes and ill-shaped items; SeasoningError for duplicate keys exactly in strict mode; dash/underscore rewriting inverse. Model tied to helpers.py by ~10k (thorough: all enumerated) transform runs evaluated inside Coq and by a docstring-derived oracle on the implementation.",
   note="Trusted: Coq kernel + vm_compute; hand-written model of the four transforms validated by the correspondence run. 'Not of the expected kind' is read as documented in DESIGN.md (a present but non-string key attribute still raises SeasoningError).",
   technique=TECH, design='6 C15'),
+ 'C01': dict(
+  text="Theorem C01_load_conforms (coq/Props/C01.v): for EVERY registry with arbitrary recognisers/savorize functions/raising constructors, every scalar oracle, declared type and composed document (incl. the empty stream), if the load model returns a value it conforms to the declared type all the way down (conforms: inductive predicate over values; classes: registered concrete subclass whose constructor received a conforming argument per parameter or none for a defaulted one, extras only as plain ordered mapping). Proof: recogniser soundness -> process establishes the well_tagged invariant -> construction of a well-tagged node conforms (induction on fuel and type), independent of the constructor's redundant type_matches pass.",
+  note="Trusted: Coq kernel; the hand-written load model (Model/Recognize.v, Loader.v) is tied to yatiml by differential execution (vm_compute) of ~900 (thorough ~20k) generated (class model, document) cases per run, in the direction 'implementation returns a value => model returns the same value'; scalar values other than str/null come from PyYAML through per-case oracle tables (oracle_wfb checked per case); PyYAML's composer is shared, not modelled. Python-side conformance oracle judges every returned value independently.",
+  technique=TECH, design='6 C01, 5'),
 }
 
 REASON_TODO = 'check not built yet (work in progress; DESIGN.md section 11 gives the build order)'
